@@ -21,9 +21,22 @@ def _t(s):
     return s.get("k")
 
 
+_ANCHORS = ("update", "merge", "internal_update", "internal_merge", "downsample", "update_warmup_phase", "update_light", "update_heavy_r_eq1", "update_heavy_general",
+            "grow_candidate_set", "downsample_candidate_set", "decrease_k_by_1", "transition_from_warmup", "convert_to_heap", "move_one_to_partial", "subsample", "reset")
+
+
 def _fn(fs, rec, name, pred=lambda f: True):
+    """the function as the rules look at it: private void helpers that are not anchors of a rule are seen through, and small
+    private `return expr;` helpers are read as their expression"""
+    from astu import inlined_body, inline_single_returns
     c = [f for f in fs.values() if f.get("rect") == rec and f["name"] == name and f.get("body") is not None and pred(f)]
-    return c[0] if c else None
+    if not c:
+        return None
+    by_pat = {f["pat"]: f for f in fs.values()}
+    f = c[0]
+    body = inlined_body(f, by_pat, keep=_ANCHORS)
+    body = inline_single_returns(body, by_pat, f.get("rect"))
+    return dict(f, body=body)
 
 
 def _weight_guard(fn, out, rule, key):
@@ -237,12 +250,23 @@ def ebpps(facts):
         out.append(ob("ebpps.merge", "ebpps_sketch::internal_merge:accounting", fn["pat"], "discharged" if not missing else "violated", "merge stores n_ + other.n_, the summed cumulative weight, the larger maximum weight and the smaller k" if not missing else "merge does not finally store the expected value of %s: c = min(k, cumulative weight / maximum weight) no longer holds after the merge" % ", ".join(missing), fn["qname"]))
     for f in [g for g in fs.values() if g.get("rect") == R and g["name"] == "merge" and g.get("body") is not None]:
         form = "rvalue" if "&&" in f["params"][0]["t"] else "lvalue"
-        st = stmts_of(f["body"])
-        first = st[0] if st else {}
-        ok = first.get("k") == "If" and txt(first["c"]).replace(" ", "").replace("0.0", "0") == C("(sk.get_cumulative_weight()==0)") and stmts_of(first.get("t")) and stmts_of(first["t"])[0].get("k") == "Return"
-        swaps = [x for x in st[1:] if x.get("k") == "If" and "swap" in _callnames(x.get("t"))]
-        c2 = txt(swaps[0]["c"]).replace(" ", "") if swaps else ""
-        ok = ok and c2 == C("(sk.get_cumulative_weight()>get_cumulative_weight())")
+        # whatever the nesting: nothing happens for an input without weight, and the swap (this <-> heavier input) happens exactly
+        # when the input is heavier - read off the conditions known to hold at the swap and at the merge calls
+        from astu import reach_tagged
+        swaps, merges = [], []
+        walk(f["body"], lambda x: swaps.append(x) if x.get("k") == "Call" and x.get("cname") == "swap" else None)
+        walk(f["body"], lambda x: merges.append(x) if x.get("k") == "Call" and x.get("cname") == "internal_merge" else None)
+        zero = C("(sk.get_cumulative_weight()!=0)")
+        heavier = C("(sk.get_cumulative_weight()>get_cumulative_weight())")
+
+        def lits(n):
+            return sorted(set(C(txt(l).replace("0.0", "0")) for l, o in reach_tagged(f["body"], n)))
+        c2 = " && ".join(lits(swaps[0])) if swaps else ""
+        ml = [lits(m) for m in merges]
+        notheavier = ("!" + heavier, C("(sk.get_cumulative_weight()<=get_cumulative_weight())"))
+        two = len(ml) == 2 and sorted(len(x) for x in ml) == [2, 2] and any(heavier in x for x in ml) and any(any(nh in x for nh in notheavier) for x in ml)
+        one = len(ml) == 1 and ml[0] == [zero]       # swap if heavier, then one unconditional replay
+        ok = len(swaps) == 1 and lits(swaps[0]) == sorted([zero, heavier]) and all(zero in x for x in ml) and (two or one)
         out.append(ob("ebpps.merge", "ebpps_sketch::merge(%s):orientation" % form, f["pat"], "discharged" if ok else "violated", "an input without weight is a no-op; the lighter sketch is always replayed into the heavier one (swap when the input is heavier)" if ok else "merge orientation changed (`%s`): replaying the heavier sketch into the lighter one gives items a contribution to c above 1" % c2, f["qname"]))
     # every down-sampling step by new_rho / rho_ is followed, in the same block, by rho_ = new_rho (the ratio of the NEXT step
     # is taken against the rho that was actually applied)
